@@ -114,6 +114,46 @@ pub struct DamageArchive {
     pub opts: BOpts,
 }
 
+pub fn archives_for(srcs: &SrcCache, thorough: bool) -> Vec<DamageArchive> {
+    let mut v = archives(srcs);
+    if thorough {
+        let s = common::opts_s();
+        let t1 = common::tree_t1();
+        let t2 = common::tree_t2();
+        let t3 = common::tree_t3();
+        let mk = |name: &str, hist: &[Step], src: crate::tree::Tree, opts: BOpts| {
+            let scn = common::build_scenario(name, hist, src.clone(), opts.clone(), srcs);
+            DamageArchive {
+                name: name.to_string(),
+                snap: scn.pre,
+                band_src: scn.band_src,
+                complete: scn.complete,
+                src,
+                opts,
+            }
+        };
+        v.push(mk(
+            "A4-gap(b0,b2)+b3(T3,incomplete)",
+            &[
+                Step::Backup(t1.clone(), s.clone()),
+                Step::Backup(t2.clone(), s.clone()),
+                Step::Backup(t2.clone(), s.clone()),
+                Step::Delete(vec![1]),
+                Step::CrashedBackup(t3.clone(), s.clone(), 8),
+            ],
+            t3.clone(),
+            s.clone(),
+        ));
+        v.push(mk(
+            "A5-duplicate-contents",
+            &[Step::Backup(common::tree_dups(), BOpts::new(3, 8, 6))],
+            common::tree_dups(),
+            BOpts::new(3, 8, 6),
+        ));
+    }
+    v
+}
+
 pub fn archives(srcs: &SrcCache) -> Vec<DamageArchive> {
     let s = common::opts_s();
     let t1 = common::tree_t1();
@@ -311,7 +351,7 @@ pub fn run_c09(report: &Report, budget: &Budget) {
     hist::write_stats(report, &st, depth);
     // Damage side
     let srcs = SrcCache::new();
-    let arcs = archives(&srcs);
+    let arcs = archives_for(&srcs, thorough);
     let main = Scratch::new("c09");
     let stride = if thorough { 1 } else { 8 };
     let bases: Vec<Baseline> = arcs.iter().map(|a| baseline(a, &main)).collect();
@@ -502,7 +542,7 @@ pub fn c10_case(a: &DamageArchive, base: &Baseline, file: &str, dmg: &Damage, sr
 pub fn run_c10(report: &Report, budget: &Budget) {
     let thorough = report.thorough();
     let srcs = SrcCache::new();
-    let arcs = archives(&srcs);
+    let arcs = archives_for(&srcs, thorough);
     let main = Scratch::new("c10");
     let stride = if thorough { 1 } else { 8 };
     let bases: Vec<Baseline> = arcs.iter().map(|a| baseline(a, &main)).collect();
@@ -544,7 +584,7 @@ pub fn run_c10(report: &Report, budget: &Budget) {
 
 pub fn replay(case: &Value) -> Vec<Violation> {
     let srcs = SrcCache::new();
-    let arcs = archives(&srcs);
+    let arcs = archives_for(&srcs, true);
     let scratch = Scratch::new("replay");
     let ai = case["archive"].as_u64().unwrap() as usize;
     let base = baseline(&arcs[ai], &scratch);
@@ -564,7 +604,7 @@ pub fn replay_hist(case: &Value) -> Vec<Violation> {
 /// Debug aid: print how the damaged file decodes and what listing the band gives.
 pub fn debug(case: &Value) {
     let srcs = SrcCache::new();
-    let arcs = archives(&srcs);
+    let arcs = archives_for(&srcs, true);
     let scratch = Scratch::new("dbg");
     let ai = case["archive"].as_u64().unwrap() as usize;
     let f = case["file"].as_str().unwrap();
